@@ -166,7 +166,7 @@ def %s(use0: bool, use1: bool, use2: bool, alias0: bool, alias2: bool) -> bool:
 
 def kernel_part(out):
   src, names = reject_source()
-  kernels.run_kernels(out, 'import rejection rules', src, names, 600, replay_reject)
+  kernels.run_kernels(out, 'import rejection rules', src, names, 1500, replay_reject)
   depth = 3 if fw.tier() == 'thorough' else 2
   src = KERNEL_HEAD
   names = []
@@ -174,7 +174,7 @@ def kernel_part(out):
     for lb in range(1, depth + 1):
       src += kernel_fn(la, lb)
       names.append('k_prefix_%d_%d' % (la, lb))
-  kernels.run_kernels(out, 'import prefix loop', src, names, 600 if depth == 3 else 120, replay_prefix)
+  kernels.run_kernels(out, 'import prefix loop', src, names, 1800 if depth == 3 else 900, replay_prefix)
 
 
 def run():
